@@ -1,5 +1,5 @@
 import sys, time
-sys.path.insert(0, '/repo/src'); sys.path.insert(0, '/verif')
+import os; sys.path.insert(0, os.environ.get('TRY_SRC', '/repo/src')); sys.path.insert(0, '/verif')
 from pyvc.engine import Engine
 from pyvc.backends import solve_all
 import importlib
